@@ -143,6 +143,20 @@ def run(r):
             continue
         seen.add(key)
         r.violation(key, "frame law fails on the implementation: %s (signature %s, program %r)" % (v["what"], v["sig"], v["src"]), v, theorem="C02_sig_sound")
+    # array frame search: modifier applications over operands of many signatures on array arguments
+    rc, out, err = run_bin("c02", ["aframe", 1500 if quick else 40000], seed=r.seed, timeout=1500)
+    recs = json_lines(out)
+    asumm = [x for x in recs if x.get("summary")]
+    if rc != 0 or not asumm:
+        r.broken_obligation("aframe-harness", "c02 aframe failed to run", (out + err)[-2000:])
+    r.coverage["search_arrays"] = dict(asumm[0] if asumm else {}, violations=len([x for x in recs if "violation" in x]))
+    r.log("array frame search: %s" % (asumm[0] if asumm else "no summary"))
+    for v in [x for x in recs if "violation" in x]:
+        key = "%s|%s|%s" % (v["violation"], v["src"], v["what"])
+        if key in seen:
+            continue
+        seen.add(key)
+        r.violation(key, "frame law fails on the implementation: %s (signature %s, program %r, arguments %s)" % (v["what"], v["sig"], v["src"], v["args"]), v, theorem="C02_sig_sound")
     # monitor: the frame hook around every function / operand execution of real corpus programs (arrays,
     # every modifier the corpus uses): ties what the model abstracts (iteration over arrays) to the code
     rc, out, err = run_bin("c02", ["monitor", 400 if quick else 100000], seed=r.seed, timeout=1500)
